@@ -9,6 +9,8 @@
 //! Part C — concurrency through a real `Node`: k tasks on a current-thread runtime, the H3 yield hook yielding a seeded
 //!   0..3 times between the partial writes; the hook trace is replayed through the lock/write model and the wire bytes
 //!   must be whole frames with every task's operations in issue order.
+//! Part F — every node-level operation failed without a connection, retried after `connect` and repeated, for spawned
+//!   local processes and fabricated pids; the frames of each single operation counted and read by the independent reader.
 use crate::canon::{hex, hexarg, pid_text, term_text};
 use crate::peer::*;
 use crate::tgen::{gen_atom_name, gen_pid, gen_ref, gen_term, gen_u32, Cfg};
@@ -791,6 +793,183 @@ async fn part_c(ctx: &mut Ctx, epmd: &FakeEpmd, case: &mut usize) {
     }
 }
 
+/// a process that takes every message and does nothing with it
+struct Quiet;
+
+impl edp_node::Process for Quiet {
+    async fn handle_message(&mut self, _msg: edp_node::Message) -> edp_node::Result<()> {
+        Ok(())
+    }
+}
+
+/// number of length-prefixed frames in `wire` (`None`: the bytes do not end at a frame boundary)
+fn count_frames(wire: &[u8]) -> Option<usize> {
+    let (mut i, mut n) = (0usize, 0usize);
+    while i < wire.len() {
+        if i + 4 > wire.len() {
+            return None;
+        }
+        let l = u32::from_be_bytes([wire[i], wire[i + 1], wire[i + 2], wire[i + 3]]) as usize;
+        i += 4;
+        if i + l > wire.len() {
+            return None;
+        }
+        i += l;
+        n += 1;
+    }
+    Some(n)
+}
+
+/// Part F — repeated and retried operations through a real `Node`: every operation is tried while there is no connection to
+/// the target's node (must fail, nothing to write to), then the node connects and the SAME operation (same arguments) is
+/// retried and then issued once more; for local processes spawned on the node (whose link/monitor sets the node keeps) as
+/// well as for fabricated pids.  After every single operation a sentinel goes through the same connection and the peer
+/// reads up to it: an operation that returned Ok must have written exactly one frame — the one the independent reader
+/// reads as this operation (`c07wire` with a one-operation program) —, one that failed none.
+async fn part_f(ctx: &mut Ctx, epmd: &FakeEpmd, case: &mut usize) {
+    let rounds = ctx.n(4, 40);
+    for round in 0..rounds {
+        *case += 1;
+        let short = format!("c07f{}", *case);
+        let peer_name = format!("{}@127.0.0.1", short);
+        let listener = listen_as(epmd, &short).await;
+        let pcfg = PeerCfg::new(&peer_name, "c07cookie");
+        let peer = tokio::spawn(async move { accept_and_handshake(&listener, &pcfg).await });
+        let me = format!("c07fnode{}@127.0.0.1", *case);
+        let mut node = edp_node::Node::new(me.clone(), "c07cookie");
+        if let Err(e) = node.start(0).await {
+            ctx.fail("c07-setup", &format!("part F node.start: {}", e));
+            peer.abort();
+            continue;
+        }
+        let peer_atom = Atom::new(&peer_name);
+        let me_atom = Atom::new(&me);
+        let (Ok(sp0), Ok(sp1)) = (node.spawn(Quiet).await, node.spawn(Quiet).await) else {
+            ctx.fail("c07-setup", "part F: spawn failed");
+            peer.abort();
+            continue;
+        };
+        let fab = ExternalPid::new(me_atom.clone(), 900 + round as u32, gen_u32(&mut ctx.rng) >> 4, node.creation());
+        // the targets on the peer: one shared by all operations (so that a repeated (from, to) pair really repeats), one per kind
+        let shared = ExternalPid::new(peer_atom.clone(), 7, 3, 77);
+        let cfg = Cfg { max_depth: 2, huge: false, ..Cfg::default() };
+        // (from, to, which kind) in a seeded order; every kind with a spawned `from`, a second spawned `from`, a fabricated one
+        let mut plan: Vec<(usize, ExternalPid, ExternalPid)> = vec![];
+        for kind in 0..5usize {
+            for (fi, from) in [sp0.clone(), sp1.clone(), fab.clone()].into_iter().enumerate() {
+                let to = if fi == 1 || ctx.rng.chance(1, 2) { shared.clone() } else { ExternalPid::new(peer_atom.clone(), gen_u32(&mut ctx.rng) >> 4, gen_u32(&mut ctx.rng) >> 19, 77) };
+                plan.push((kind, from, to));
+            }
+        }
+        ctx.rng.shuffle(&mut plan);
+        // phase 1: no connection yet
+        let mut refs: Vec<Option<ExternalReference>> = vec![None; plan.len()];
+        let fixed_ref = |i: usize| ExternalReference::new(me_atom.clone(), 8, vec![i as u32, 4242, 1]);
+        let bodies: Vec<OwnedTerm> = (0..plan.len()).map(|_| gen_term(&mut ctx.rng, &cfg, 0)).collect();
+        for (i, (kind, from, to)) in plan.iter().enumerate() {
+            let ok = match kind {
+                0 => node.send(to, bodies[i].clone()).await.is_ok(),
+                1 => node.link(from, to).await.is_ok(),
+                2 => node.unlink(from, to).await.is_ok(),
+                3 => node.monitor(from, to).await.is_ok(),
+                _ => node.demonitor(from, to, &fixed_ref(i)).await.is_ok(),
+            };
+            ctx.count("repeat_op_without_connection");
+            if ok {
+                ctx.fail("c07-operation-before-connect-succeeds", &format!("part F: kind {} from {} to {} returned Ok with no connection", kind, pid_text(from), pid_text(to)));
+            }
+        }
+        if let Err(e) = node.connect(peer_name.clone()).await {
+            ctx.fail("c07-setup", &format!("part F node.connect: {}", e));
+            peer.abort();
+            continue;
+        }
+        let Some(mut peer) = tokio::time::timeout(Duration::from_secs(5), peer).await.ok().and_then(|r| r.ok()).flatten() else {
+            ctx.fail("c07-setup", "part F: peer handshake did not finish");
+            continue;
+        };
+        let conns = node.connections();
+        let Some(handle) = conns.get(peer_name.as_str()).map(|r| r.value().clone()) else {
+            ctx.fail("c07-setup", "part F: no connection in the table after connect");
+            continue;
+        };
+        // phase 2: the retry after the failed attempt, then the same operation again (twice in a row), then — for the
+        // sixth operation, which a node issues only through the connection (`send_to_name` towards `rex`) — the same
+        let dummy = ExternalPid::new(me_atom.clone(), 0, 0, 8);
+        let mut broken = false;
+        'ops: for (i, (kind, from, to)) in plan.iter().enumerate() {
+            for attempt in ["retry", "again", "third"] {
+                let (res, text): (Result<(), String>, String) = match kind {
+                    0 => (node.send(to, bodies[i].clone()).await.map_err(|e| e.to_string()), format!("S;{};{};{}", pid_text(&dummy), pid_text(to), term_text(&bodies[i]))),
+                    1 => (node.link(from, to).await.map_err(|e| e.to_string()), format!("L;{};{}", pid_text(from), pid_text(to))),
+                    2 => (node.unlink(from, to).await.map_err(|e| e.to_string()), format!("U;{};{};?", pid_text(from), pid_text(to))),
+                    3 => match node.monitor(from, to).await {
+                        Ok(r) => {
+                            let t = format!("M;{};{};{}", pid_text(from), pid_text(to), ref_text(&r));
+                            refs[i] = Some(r);
+                            (Ok(()), t)
+                        }
+                        Err(e) => (Err(e.to_string()), "M".to_string()),
+                    },
+                    _ => {
+                        // the reference of a monitor this history really set up, when there is one
+                        let r = refs.iter().flatten().next().cloned().unwrap_or_else(|| fixed_ref(i));
+                        (node.demonitor(from, to, &r).await.map_err(|e| e.to_string()), format!("D;{};{};{}", pid_text(from), pid_text(to), ref_text(&r)))
+                    }
+                };
+                if !frame_check(ctx, &handle, &mut peer, round, attempt, res, &text).await {
+                    broken = true;
+                    break 'ops;
+                }
+            }
+        }
+        if !broken {
+            for attempt in ["first", "again"] {
+                let name = "rex".to_string();
+                let body = gen_term(&mut ctx.rng, &cfg, 0);
+                let text = format!("R;{};{};{}", pid_text(&sp0), hexarg(name.as_bytes()), term_text(&body));
+                let res = handle.lock().await.send_to_name(sp0.clone(), Atom::new(&name), body).await.map_err(|e| e.to_string());
+                if !frame_check(ctx, &handle, &mut peer, round, attempt, res, &text).await {
+                    break;
+                }
+            }
+        }
+        ctx.count("repeat_rounds");
+        drop(node);
+        drop(peer);
+    }
+}
+
+/// sentinel after one node-level operation, read up to it, count and judge the frames of that operation alone
+async fn frame_check(ctx: &mut Ctx, handle: &Arc<tokio::sync::Mutex<Connection>>, peer: &mut PeerConn, round: usize, attempt: &str, res: Result<(), String>, text: &str) -> bool {
+    let sentinel = ctx.rng.bytes(16);
+    let _ = handle.lock().await.send_raw(&sentinel).await;
+    let Some(wire) = read_until_sentinel(peer, &sentinel, Duration::from_secs(10)).await else {
+        ctx.fail("c07-stream-broken", &format!("part F round {} {} {}", round, attempt, &text[..text.len().min(300)]));
+        return false;
+    };
+    let kind = &text[..1];
+    ctx.count(&format!("repeat_{}_{}_{}", kind, attempt, if res.is_ok() { "ok" } else { "err" }));
+    match res {
+        Ok(()) => {
+            let frames = count_frames(&wire);
+            if frames != Some(1) {
+                ctx.fail(
+                    "c07-ok-without-exactly-one-frame",
+                    &format!("part F ({} of the same operation through one Node): {} returned Ok and wrote {:?} frames, wire={}", attempt, &text[..text.len().min(600)], frames, hexarg(&wire[..wire.len().min(400)])),
+                );
+            }
+            ctx.add("node_frames", 1);
+            ctx.prop("gen", &format!("c07wire {} {}", text, hexarg(&wire)), "ok frames=1");
+        }
+        Err(e) => {
+            ctx.fail("c07-node-operation-fails", &format!("part F {} {}: {}", attempt, &text[..text.len().min(300)], e));
+            ctx.prop("gen", &format!("c07none {}", hexarg(&wire)), "ok");
+        }
+    }
+    true
+}
+
 /// where the armed yield hook stops an operation (name of the H3 point, `None` = not armed) and whether it got there
 static CUT_AT: Mutex<Option<&'static str>> = Mutex::new(None);
 static CUT_HIT: std::sync::atomic::AtomicBool = std::sync::atomic::AtomicBool::new(false);
@@ -1104,5 +1283,6 @@ pub fn run(ctx: &mut Ctx) {
         part_c(ctx, &epmd, &mut case).await;
         part_d(ctx, &epmd, &mut case).await;
         part_e(ctx, &epmd, &mut case).await;
+        part_f(ctx, &epmd, &mut case).await;
     });
 }
